@@ -4,6 +4,20 @@ What a timer queue looks like to its owner when the owner's poll has just gone i
 the client / server models establish it: the queue is empty, or the owner's last `poll_expired` on a queue satisfying
 the two-sided wheel invariant reported nothing (`DelayQ.pollExpired_nothing_due`).
 -/
+namespace TarpcModel
+
+/-- a timer that is the millisecond ceiling of a due time not after `dl` fires no later than the millisecond tick of `dl` -/
+theorem tick_le_ceil {w due dl : Nat} (h4 : w * nsPerMs < due + nsPerMs) (hle : due ≤ dl) :
+    w * nsPerMs ≤ ceilMs dl * nsPerMs := by
+  unfold ceilMs nsPerMs at *
+  omega
+
+theorem le_ceil_tick (dl : Nat) : dl ≤ ceilMs dl * nsPerMs := by
+  unfold ceilMs nsPerMs
+  omega
+
+end TarpcModel
+
 namespace TarpcModel.DelayQ
 
 /-- The owner's poll has just gone idle at clock `now`: no entry is due, and — if entries remain — the owner's waker is
